@@ -1263,6 +1263,8 @@ class Interp:
         if isinstance(f, Sym) and f.iface is not None:
             return f.iface.call_self(self, f, args, kwargs)
         if isinstance(f, Sym):
+            if self.kind(f) in ("int", "str", "bool", "none", "real", "bytes"):
+                self.raise_builtin("TypeError", "'%s' object is not callable" % self.kind(f))
             raise OutOfReach("call of symbolic value without interface")
         self.raise_builtin("TypeError", "object is not callable: %r" % (f,))
 
